@@ -240,6 +240,14 @@ def scripts(tier, seed, scale=1):
                     n -= d
         lines += ["st flush", "st deliver 1000000", "st poll", "st dispatch", "st sync"]
         out.append(("glue:%s:%d" % (codec, k), lines))
+    # full blocks that end exactly at the end of the write queue (the encoder takes a byte back and consumes nothing)
+    for codec in CODECS:
+        full = 222 if "zpe" in codec else 254
+        for n1 in range(full - 2, full + 3):
+            for n2 in (full - 1, full, full + 46):
+                lines = ["st new " + codec, "st push " + gen.hexs([7] * n1), "st term", "st push " + gen.hexs([9] * n2), "st term",
+                         "st flush", "st deliver 300", "st poll", "st dispatch", "st deliver 1000000", "st poll", "st dispatch", "st sync"]
+                out.append(("glue-full:%s:%d:%d" % (codec, n1, n2), lines))
     return out
 
 
